@@ -144,7 +144,9 @@ Inductive act :=
 | AUnser (prog : list act)
 | ANotify
 | ANoRoute (prog : list act)
-| ANotifyNR.                     (* node-level notification with no route target: nothing happens *)
+| ANotifyNR                      (* node-level notification with no route target: nothing happens *)
+| ARep (n : Z) (a : act).        (* BULK: the action a, n times in a row (n requests with the same callback
+                                    programme, ...): exactly what n single actions do - C01_bulk_is_n_singles *)
 
 Inductive op :=
 | Do (a : act)
@@ -293,6 +295,15 @@ Section WithMax.
                     end) p (set_ntags s (ntags s + 1)) in
         (fst r, ENoRoute (ntags s) :: ECb (ntags s) RNoService :: snd r)
     | ANotifyNR => (s, [])
+    | ARep n b =>
+        (fix rep (k : nat) (s0 : st) {struct k} : st * list ev :=
+           match k with
+           | O => (s0, [])
+           | S k' =>
+               let r1 := exec b s0 in
+               let r2 := rep k' (fst r1) in
+               (fst r2, snd r1 ++ snd r2)
+           end) (Z.to_nat n) s
     end.
 
   Fixpoint exec_prog (l : list act) (s0 : st) {struct l} : st * list ev :=
@@ -334,9 +345,17 @@ Section WithMax.
 
   (* the order in which the Go map iteration yields the expired ids: those whose tag is
      hinted first, in hint order, then the others by ascending id *)
+  Definition otag (s : st) (id : Z) : option Z := option_map e_tag (aget id (pending s)).
+  Definition tag_match (t : Z) (p : option Z * Z) : bool :=
+    match fst p with Some x => x =? t | None => false end.
+
+  (* (written so that a scan of thousands of requests evaluates in quadratic, not cubic, time:
+     the tags of the expired ids are looked up once; Proofs.order_unfold gives the plain reading
+     "for each hinted tag the expired ids that carry it, then all expired ids, first occurrences") *)
   Definition order (hint : list Z) (s : st) : list Z :=
-    dedup [] (flat_map (fun t => filter (fun id => tag_is s id t) (expired_ids s)) hint
-              ++ expired_ids s).
+    let E := expired_ids s in
+    let P := map (fun id => (otag s id, id)) E in
+    dedup [] (flat_map (fun t => map snd (filter (tag_match t) P)) hint ++ E).
 
   Fixpoint fire_all (s : st) (ids : list Z) : st * list ev :=
     match ids with
